@@ -623,12 +623,17 @@ Proof.
       destruct (grow_arena c s0 size align r) as [s1 [e|]] eqn:Eg.
       * injection H as <- <-.
         destruct (grow_arena_spec c s0 size align r s1 (Some e) Hc Hr0 Eg) as (Hfr & Ech & Ecu).
-        split; [eapply frame_trans; [|exact Hfr]; repeat split|].
+        cbn [chunks upd_cur upd_chunks s0] in Ech.
+        split; [eapply frame_trans; [|eapply frame_trans; [exact Hfr|]]; repeat split|].
         assert (Hal : malign s1 = malign s) by (unfold malign; destruct Hfr as (_ & _ & _ & -> & _); reflexivity).
         split.
-        { unfold ginv. rewrite Ech, Ecu, Hal. exact Hg0. }
+        { unfold ginv. cbn [chunks cur upd_cur]. change (malign (upd_cur s1 (Cur i))) with (malign s1). rewrite Ech, Hal.
+          split; [exact W1|]. split; [eapply chunks_disjoint_same_geom; eassumption|]. split; [exact Hm|].
+          exists chi. split; [rewrite W4 by lia; exact Eni|exact Hmpi]. }
         split; [|exact I].
-        intros q sz Hsz Hq. specialize (Hpl0 q sz Hsz Hq). unfold placed in *. rewrite Ech, Ecu. exact Hpl0.
+        intros q sz Hsz Hq. destruct (Hold q sz Hsz Hq) as (k0 & chk & Hle & Hk0 & Hin & Hs).
+        exists k0, chk. cbn [chunks cur upd_cur]. rewrite Ech. split; [exact Hk0|]. split; [exact Hin|].
+        split; [exact Hle|exact Hs].
       * destruct (grow_arena_spec c s0 size align r s1 None Hc Hr0 Eg)
           as (Hfr & ch & addr & g & -> & Ech & Ecu & Hchok & Hc16 & Ecb & Ecg).
         cbn [chunks upd_cur upd_chunks s0] in Ech, Ecu.
